@@ -127,6 +127,7 @@ def judge(case):
     _rawio(case, source, results, out, bounds)
     _interleaved(case, source, results, out)
     _seekable(case, source, results, out, bounds)
+    _typed(case, source, results, out, bounds)
     out.states = len({e[1] if e[0] != "pair" else e[2] for _k, (_p, rec) in results.items()
                       for e in rec["events"]})
     out.nontrivial = not all_valid or any(i["kind"] == "skip" for i in its)
@@ -225,6 +226,15 @@ def _rawio(case, source, results, out, bounds):
     runs = {key: _drive(lambda: DribbleRaw(source, 1 << 20), lambda s: s.pos, key, case, out,
                         "RawIOBase", len(source)) for key in CFGS if key[2] == 1}
     _cross(case, bounds, runs, out, "the caller's unbuffered RawIOBase stream")
+
+
+def _typed(case, source, results, out, bounds):
+    """The same stream handing its data over as bytearray (recv_into / readinto style objects)."""
+    from mc.doubles import TypedStream  # pylint: disable=import-outside-toplevel
+
+    runs = {key: _drive(lambda: TypedStream(source, None, bytearray, faults=False), lambda s: s.pos, key, case,
+                        out, "bytearray stream", len(source)) for key in CFGS if key[2] == 1}
+    _cross(case, bounds, runs, out, "a stream that returns bytearray")
 
 
 def _seekable(case, source, results, out, bounds):
